@@ -98,6 +98,7 @@ INST_RULES = [
     (r'::<(?:NumericTypes|DefaultNumericTypes)>', '', 1),
     (r'<(?:NumericTypes|C::NumericTypes|Self::NumericTypes|DefaultNumericTypes)>', '', 10),
     (r', (?:NumericTypes|C::NumericTypes|Self::NumericTypes|DefaultNumericTypes)>', '>', 5),
+    (r'\b(EvalexprResult(?:Value)?<(?:[^<>]|<[^<>]*>)*), _>', r'\1>', 0),
     (r"<'a, NumericTypes>", "<'a>", 0),
     (r'default_numeric_types::DefaultNumericTypes, ', '', 0),
     (r'\{default_numeric_types::DefaultNumericTypes\}', '{}', 0),
@@ -427,6 +428,11 @@ def extract(repo):
     counts['X20'] = n20
     s, n21 = outline_iter_variables(s)
     counts['X21'] = n21
+    # X23: compound bit assignment on a place expression (Verus rejects `|` / `&` on bool); both operands are
+    # still evaluated exactly once (the place is read, the right side is evaluated, the helper combines them)
+    s, n23 = re.subn(r'^([ \t]*)((?:self\.)?[A-Za-z_][A-Za-z0-9_]*(?:\.[A-Za-z_][A-Za-z0-9_]*)*) (\||&)= ([^;\n]+);[ \t]*$',
+                     lambda q: '%s%s = crate::vs::%s(%s, %s);' % (q.group(1), q.group(2), 'vs_or' if q.group(3) == '|' else 'vs_and', q.group(2), q.group(4)), s, flags=re.M)
+    counts['X23'] = n23
     s, dn = copy_display_impls(s)
     counts['X22'] = len(dn)
     return s, counts
